@@ -30,9 +30,45 @@ def status():
         else:
             out.append('| %s | %s | – | – | – | – | – |' % (pid, 'yes' if pid in claims else 'no'))
     return '\n'.join(out)
+def theorems():
+    """per property: theorem names of Props/Cxx.lean with the first sentence of their doc comment"""
+    out = []
+    props = {json.loads(l)['id']: json.loads(l)['title'] for l in open(os.path.join(V, 'properties.jsonl'))}
+    for i in range(1, 21):
+        pid = 'C%02d' % i
+        f = os.path.join(V, 'lean', 'PkVerif', 'Props', pid + '.lean')
+        if not os.path.exists(f):
+            continue
+        src = open(f).read()
+        out.append('**%s – %s**\n' % (pid, props[pid]))
+        for m in re.finditer(r'(?:/--((?:(?!-/).)*?)-/\s*)?^theorem\s+(\S+)', src, flags=re.S | re.M):
+            doc = re.sub(r'\s+', ' ', (m.group(1) or '').strip())
+            doc = doc.replace('**', '')
+            first = re.split(r'(?<=[.;])\s', doc, 1)[0] if doc else ''
+            out.append('* `%s`%s' % (m.group(2), (' – ' + esc(first[:230])) if first else ''))
+        out.append('')
+    return '\n'.join(out)
+def trusted():
+    out = []
+    pj = json.load(open(os.path.join(V, 'props.json')))
+    for i in range(1, 21):
+        pid = 'C%02d' % i
+        cfg = pj.get(pid, {})
+        f = os.path.join(V, 'props.d', pid + '.json')
+        if os.path.exists(f):
+            cfg = json.load(open(f))
+        if not cfg.get('trusted_base'):
+            continue
+        out.append('**%s**\n' % pid)
+        for t in cfg.get('trusted_base', []):
+            out.append('* ' + esc(t))
+        for t in cfg.get('assumptions', []):
+            out.append('* assumed: ' + esc(t))
+        out.append('')
+    return '\n'.join(out)
 p = os.path.join(V, 'DESIGN.md')
 s = open(p).read()
-for name, fn in (('FINDINGS', findings), ('SEEDED', seeded), ('STATUS', status)):
+for name, fn in (('FINDINGS', findings), ('SEEDED', seeded), ('STATUS', status), ('THEOREMS', theorems), ('TRUSTED', trusted)):
     b, e = '<!-- BEGIN %s -->' % name, '<!-- END %s -->' % name
     if b in s:
         s = s[:s.index(b) + len(b)] + '\n' + fn() + '\n' + s[s.index(e):]
